@@ -561,8 +561,7 @@ Qed.
 Definition lq_head (now : bytes) (i : N) (c : change) : bytes :=
   S_CHANGESET ++ now ++ [45%N] ++ dec (i + 1) ++ S_NL ++
   (match c_comment c with [] => [] | cm => S_LCOMMENT ++ cm end) ++ S_NL.
-Definition lq_rollbacks (c : change) : bytes :=
-  concat (map (fun r => S_ROLLBACK ++ r ++ S_SEMI_NL) (c_reverse c)).
+Definition lq_rollbacks (c : change) : bytes := concat (map liquibase_rollback (c_reverse c)).
 Fixpoint lq_segs (prefix now : bytes) (i : N) (cs : list change) : list (bytes * bytes) :=
   match cs with
   | [] => []
@@ -592,31 +591,47 @@ Lemma dec_no_nl n : ~ In 10%N (dec n).
 Proof. apply dec_digits_no_nl. intros []. Qed.
 
 Definition liquibase_change_ok (o : opts) (c : change) : Prop :=
-  scan_closed o delimiter (c_cmd c) = true /\ comment_ok (c_comment c) = true /\
-  Forall (fun r => comment_ok r = true) (c_reverse c).
+  scan_closed o delimiter (c_cmd c) = true /\ comment_ok (c_comment c) = true.
 
 Lemma not_in_app (x : N) a b : ~ In x a -> ~ In x b -> ~ In x (a ++ b).
 Proof. intros Ha Hb H. apply in_app_or in H as [H|H]; auto. Qed.
 
 Definition S_ROLLBACK_BODY : bytes := [114;111;108;108;98;97;99;107;58;32]%N.   (* "rollback: " *)
-Lemma rollback_line r : S_ROLLBACK ++ r ++ S_SEMI_NL = [45%N;45%N] ++ (S_ROLLBACK_BODY ++ r ++ [59%N]) ++ [10%N].
-Proof. unfold S_ROLLBACK, S_SEMI_NL, S_ROLLBACK_BODY. simpl. repeat rewrite <- app_assoc. reflexivity. Qed.
 
 Lemma Gap_comment_eq d body g x :
   x = [45%N;45%N] ++ body ++ [10%N] ++ g -> ~ In 10%N body -> has_prefix ([45%N;45%N] ++ body ++ [10%N]) d = false ->
   Gap d g -> Gap d x.
 Proof. intros ->; constructor; auto. Qed.
 
-Lemma lq_rollbacks_gap c g : Forall (fun r => comment_ok r = true) (c_reverse c) ->
-  Gap delimiter g -> Gap delimiter (lq_rollbacks c ++ g).
+(** every line of a (multi-line) reverse statement is a whole "--rollback: " comment line *)
+Lemma rollback_lines_gap : forall r body0 g, ~ In 10%N body0 -> Gap delimiter g ->
+  Gap delimiter ([45%N;45%N] ++ body0 ++ rollback_lines r ++ S_SEMI_NL ++ g).
 Proof.
-  unfold lq_rollbacks. induction (c_reverse c) as [|r rs IH]; intros Hall Hg; [exact Hg|].
-  apply Forall_cons_iff in Hall as [Hr Hall]. cbn [map concat]. rewrite rollback_line.
-  eapply (Gap_comment_eq _ (S_ROLLBACK_BODY ++ r ++ [59%N])
-            (concat (map (fun r0 => S_ROLLBACK ++ r0 ++ S_SEMI_NL) rs) ++ g));
-    [repeat rewrite <- app_assoc; reflexivity| |reflexivity|apply IH; assumption].
-  apply not_in_app; [vm_compute; intuition discriminate|]. apply not_in_app; [apply comment_ok_notin; exact Hr|].
-  intros [E|[]]. discriminate.
+  induction r as [|b t IH]; intros body0 g Hb Hg.
+  - cbn [rollback_lines app]. unfold S_SEMI_NL.
+    eapply (Gap_comment_eq _ (body0 ++ [59%N]) g); [repeat rewrite <- app_assoc; reflexivity| |reflexivity|exact Hg].
+    apply not_in_app; [exact Hb|intros [E|[]]; discriminate].
+  - cbn [rollback_lines]. destruct (N.eqb b 10) eqn:E.
+    + eapply (Gap_comment_eq _ body0 (S_ROLLBACK ++ rollback_lines t ++ S_SEMI_NL ++ g));
+        [repeat rewrite <- app_assoc; reflexivity|exact Hb|reflexivity|].
+      unfold S_ROLLBACK.
+      change ([45;45;114;111;108;108;98;97;99;107;58;32]%N ++ rollback_lines t ++ S_SEMI_NL ++ g)
+        with ([45%N;45%N] ++ S_ROLLBACK_BODY ++ rollback_lines t ++ S_SEMI_NL ++ g).
+      apply IH; [vm_compute; intuition discriminate|exact Hg].
+    + replace ([45%N; 45%N] ++ body0 ++ (b :: rollback_lines t) ++ S_SEMI_NL ++ g)
+        with ([45%N; 45%N] ++ (body0 ++ [b]) ++ rollback_lines t ++ S_SEMI_NL ++ g)
+        by (repeat rewrite <- app_assoc; reflexivity).
+      apply IH; [|exact Hg]. apply not_in_app; [exact Hb|]. intros [E'|[]]. subst. discriminate.
+Qed.
+
+Lemma lq_rollbacks_gap c g : Gap delimiter g -> Gap delimiter (lq_rollbacks c ++ g).
+Proof.
+  unfold lq_rollbacks. induction (c_reverse c) as [|r rs IH]; intros Hg; [exact Hg|].
+  cbn [map concat]. unfold liquibase_rollback at 1. unfold S_ROLLBACK.
+  replace ((([45;45;114;111;108;108;98;97;99;107;58;32]%N ++ rollback_lines r ++ S_SEMI_NL) ++ concat (map liquibase_rollback rs)) ++ g)
+    with ([45%N;45%N] ++ S_ROLLBACK_BODY ++ rollback_lines r ++ S_SEMI_NL ++ (concat (map liquibase_rollback rs) ++ g))
+    by (unfold S_ROLLBACK_BODY; repeat rewrite <- app_assoc; reflexivity).
+  apply rollback_lines_gap; [vm_compute; intuition discriminate|apply IH; exact Hg].
 Qed.
 
 Definition S_CHANGESET_BODY : bytes := [99;104;97;110;103;101;115;101;116;32;97;116;108;97;115;58]%N. (* "changeset atlas:" *)
@@ -651,19 +666,19 @@ Lemma lq_segs_ok o now : comment_ok now = true -> forall cs prefix i,
   Forall (fun gc => Gap delimiter (fst gc) /\ scan_closed o delimiter (snd gc) = true) (lq_segs prefix now i cs).
 Proof.
   intros Hnow. induction cs as [|c cs IH]; intros prefix i Hpre Hall; [constructor|].
-  apply Forall_cons_iff in Hall as [(H1 & H2 & H3) Hall]. simpl. constructor.
+  apply Forall_cons_iff in Hall as [(H1 & H2) Hall]. simpl. constructor.
   - simpl. split; [|exact H1].
     destruct (lq_head_gap now i c [] Hnow H2 (gap_nil _)) as (h & Hh & Hgh). rewrite app_nil_r in Hh.
     rewrite Hh. apply Hpre. exact Hgh.
-  - apply IH; [|exact Hall]. intros g Hg. apply lq_rollbacks_gap; [exact H3|]. constructor. exact Hg.
+  - apply IH; [|exact Hall]. intros g Hg. apply lq_rollbacks_gap. constructor. exact Hg.
 Qed.
 
 Lemma lq_end_gap o : forall cs prefix, Gap delimiter prefix -> Forall (liquibase_change_ok o) cs ->
   Gap delimiter (lq_end prefix cs).
 Proof.
   induction cs as [|c cs IH]; intros prefix Hp Hall; [exact Hp|].
-  apply Forall_cons_iff in Hall as [(H1 & H2 & H3) Hall]. simpl. apply IH; [|exact Hall].
-  rewrite <- (app_nil_r (lq_rollbacks c)). apply lq_rollbacks_gap; [exact H3|constructor].
+  apply Forall_cons_iff in Hall as [(H1 & H2) Hall]. simpl. apply IH; [|exact Hall].
+  rewrite <- (app_nil_r (lq_rollbacks c)). apply lq_rollbacks_gap. constructor.
 Qed.
 
 Theorem liquibase_roundtrip o now p :
@@ -682,9 +697,9 @@ Proof.
   simpl app in HS. rewrite HS.
   - f_equal. clear. generalize S_LIQUIBASE, 0%N. induction (p_changes p) as [|c cs IH]; intros pre i; [reflexivity|].
     simpl. f_equal. apply IH.
-  - rewrite E in *. apply Forall_cons_iff in Hall as [(H1 & H2 & H3) Hall]. cbn [lq_end].
+  - rewrite E in *. apply Forall_cons_iff in Hall as [(H1 & H2) Hall]. cbn [lq_end].
     apply (lq_end_gap o); [|exact Hall].
-    rewrite <- (app_nil_r (lq_rollbacks c)). apply lq_rollbacks_gap; [exact H3|constructor].
+    rewrite <- (app_nil_r (lq_rollbacks c)). apply lq_rollbacks_gap. constructor.
   - apply lq_segs_ok; assumption.
   - rewrite <- lq_body. reflexivity.
 Qed.
